@@ -104,46 +104,54 @@ def ctx_lookup(cx, path, default):
 
 
 # ------------------------------------------------------------------ raise_now pre-scan (mirrors comp order)
-def scan_raise(ast):
+def compiled_children(ast) -> list:
+    """Sub-ASTs that vf_tasks.comp compiles as part of the SAME task body (bodies of nested tasks,
+    partials, recover tasks etc. are data for other jobs and are not included), in comp order."""
     k = ast[0]
-    if k == "raise_now":
-        return ast
-    if k in ("lit", "var", "throw", "getctx"):
-        return None
-    subs = []
+    if k in ("lit", "var", "throw", "getctx", "raise_now", "handle"):
+        return []
     if k in ("list", "tuple", "seq", "cond", "set"):
-        subs = ast[1]
-    elif k == "dict":
-        subs = [v for _, v in ast[1]]
-    elif k in ("nt", "dc"):
-        subs = [ast[1], ast[2]]
-    elif k in ("task", "ptask", "nout"):
+        return list(ast[1])
+    if k == "dict":
+        return [v for _, v in ast[1]]
+    if k in ("nt", "dc"):
+        return [ast[1], ast[2]]
+    if k in ("task", "ptask", "nout"):
         subs = list(ast[2].values())
         if k == "task" and "d" in ast[3]:
             subs.append(ast[3]["d"])
-    elif k == "op":
-        subs = [ast[2], ast[3]]
-    elif k in ("getitem", "getattr", "fork_join", "tags"):
-        subs = [ast[1]]
-    elif k == "let":
-        subs = [ast[2], ast[3]]
-    elif k == "catch":
-        subs = list(ast[4].values()) + [ast[1]]
-    elif k == "catch_all":
-        subs = ast[1]
-    elif k == "map":
-        subs = list(ast[2].values()) + [ast[3]]
-    elif k == "map2":
-        subs = [ast[3]]
-    elif k == "flat_map":
-        subs = [ast[2]]
-    elif k == "apply":
-        subs = ast[2]
-    elif k == "callv":
-        subs = [ast[1]] + list(ast[2])
-    elif k == "mkpartial":
-        subs = list(ast[2].values())
-    for s in subs:
+        return subs
+    if k == "op":
+        return [ast[2], ast[3]]
+    if k in ("getitem", "getattr", "fork_join", "tags", "peek"):
+        return [ast[1]]
+    if k == "use":
+        return [ast[1], ast[2]]
+    if k == "let":
+        return [ast[2], ast[3]]
+    if k == "catch":
+        return list(ast[4].values()) + [ast[1]]
+    if k == "catch_all":
+        return list(ast[1])
+    if k == "map":
+        return list(ast[2].values()) + [ast[3]]
+    if k == "map2":
+        return [ast[3]]
+    if k == "flat_map":
+        return [ast[2]]
+    if k == "apply":
+        return list(ast[2])
+    if k == "callv":
+        return [ast[1]] + list(ast[2])
+    if k == "mkpartial":
+        return list(ast[2].values())
+    return []
+
+
+def scan_raise(ast):
+    if ast[0] == "raise_now":
+        return ast
+    for s in compiled_children(ast):
         r = scan_raise(s)
         if r is not None:
             return r
@@ -374,6 +382,21 @@ def interp(ast, env, cx):
     if k == "getctx":
         return ok(ctx_lookup(cx, ast[1], ast[2]))
     raise ValueError(f"unknown node {k}")
+
+
+def fresh(prog):
+    """Deep copy of an AST whose strings are fresh (non-interned) objects.
+
+    redun's value hash is a hash of the pickle, and pickle memoises by object identity: an AST
+    string such as 'task' that happens to be the same interned object as a key of
+    PartialTask.__getstate__ is shared in the first pickle but not after a round trip, so the
+    recorded hash of such a value changes when it is read back. That identity dependence is
+    C16's subject (known finding there); the programs run by the scheduler-level checks are
+    de-interned so that they do not trip over it.
+    """
+    import json
+
+    return json.loads(json.dumps(prog))
 
 
 def reference(prog, context=None) -> Out:
